@@ -34,6 +34,7 @@ type vstate struct {
 	orphan  bool // the builder that mocked it was dropped (not reset)
 	real    bool // holds the real implementation (when not mocked)
 	saved   [2]uintptr
+	copied  bool // holds a copy of the mocked value of another variable (shares that activation's slots)
 }
 
 func guard(f func()) (pv interface{}) {
@@ -195,6 +196,10 @@ func runHist(ci interface{}, s *vkit.Stats) error {
 			if t.mocked && t.builder != bi {
 				bi = t.builder // one variable is mocked through one builder at a time
 			}
+			if t.copied {
+				s.Exclude("mock-on-a-variable-that-holds-a-copied-mock")
+				continue
+			}
 			if t.mocked && t.orphan {
 				// its builder was dropped: the statement promises that the existing mock keeps working, not that
 				// another builder can extend it
@@ -269,6 +274,19 @@ func runHist(ci interface{}, s *vkit.Stats) error {
 			if len(t.slots) >= 2 {
 				s.Class("variable-with->=2-mocked-slots")
 			}
+		case "copy":
+			// the mocked value is handed to another variable of the interface type (an object keeping the dependency it was
+			// built with): it stays callable for as long as that variable holds it, whatever happens to the first variable
+			dst := (v + 1 + vkit.Pick(op.I[3], 2)) % 3
+			d := vs[dst]
+			if !t.mocked || t.copied || d.mocked {
+				continue
+			}
+			reflect.ValueOf(ii.Var(dst)).Elem().Set(reflect.ValueOf(ii.Var(v)).Elem())
+			vs[dst] = &vstate{slots: t.slots, mocked: true, copied: true, builder: -1}
+			s.Class("mocked-value-copied-to-another-variable")
+			fp = append(fp, fmt.Sprintf("cp%d>%d", v, dst))
+			nontrivial = true
 		case "call":
 			if err := callOne(step, v, m, op.I[3]); err != nil {
 				return err
@@ -291,6 +309,15 @@ func runHist(ci interface{}, s *vkit.Stats) error {
 			}
 			for vv, tt := range vs {
 				if tt.mocked && tt.builder == bi && !tt.orphan {
+					// copies of this activation's value held by other variables: the statement promises nothing about them once
+					// the mock was reset; they are put back to nil and no longer judged
+					for cv, ct := range vs {
+						if ct.copied && ct.mocked && reflect.ValueOf(ct.slots).Pointer() == reflect.ValueOf(tt.slots).Pointer() {
+							ii.SetNil(cv)
+							vs[cv] = &vstate{slots: map[int]*slot{}}
+							s.Class("copy-retired-when-its-source-was-reset")
+						}
+					}
 					tt.mocked = false
 					tt.slots = map[int]*slot{}
 					if w := ii.Words(vv); w != tt.saved {
@@ -351,7 +378,7 @@ func runHist(ci interface{}, s *vkit.Stats) error {
 	return nil
 }
 
-var opGen = vkit.OpGen([]string{"apply", "ret", "call", "callall", "reset", "dropgc", "gc"}, []int{5, 4, 8, 2, 2, 1, 1}, 6)
+var opGen = vkit.OpGen([]string{"apply", "ret", "call", "callall", "reset", "dropgc", "gc", "copy"}, []int{5, 4, 8, 2, 2, 1, 1, 2}, 6)
 
 func TestVerifC07(t *testing.T) {
 	if f, err := os.OpenFile(os.DevNull, os.O_WRONLY, 0); err == nil && os.Getenv("VERIF_VERBOSE") == "" {
